@@ -12,7 +12,7 @@ import (
 )
 
 func init() {
-	register("C04", c04NoBody, func(e *Env) { streamFraming(e, "C04.framing", "pkg/protocol/http1/resp") }, c04Writer, c04Excl, func(e *Env) { serveLoop(e, "C04") })
+	register("C04", c04NoBody, func(e *Env) { streamFraming(e, "C04.framing", "pkg/protocol/http1/resp") }, c04Writer, c04Excl, func(e *Env) { serveLoop(e, "C04") }, c04Fresh, c13Alias)
 }
 
 const pkgResp = Mod + "/pkg/protocol/http1/resp"
@@ -542,4 +542,12 @@ func c04Excl(e *Env) {
 		})
 		r.Check(found, rule, fname+":has-branch", w.Pos(fi.Decl.Pos()), "SetContentLength branches on contentLength >= 0", "no `if contentLength >= 0 {…} else {…}` found")
 	}
+}
+
+// C04.fresh — the response header a request starts with carries no framing left over from
+// the previous response on the connection (body-less responses never rewrite it).
+func c04Fresh(e *Env) {
+	resetObligations(e, "C04.fresh", func(tg resetTarget, field string) bool {
+		return (tg.Typ == "ResponseHeader" || tg.Typ == "Response") && tg.Meth == "Reset"
+	})
 }
